@@ -357,7 +357,8 @@ def run(ctx):
     cgm = prog.mod('coupled_groups')
     ncls = 'NonCovalentlyCoupledGroups'
     ident = cgm.func(ncls + '.identify_non_covalently_coupled_groups')
-    first = [s for s in ident.body if not (isinstance(s, ast.Expr) and isinstance(s.value, ast.Constant))][0]
+    from sa.astutil import effective
+    first = effective(ident.body)[0]
     readers = [q for q, f in cgm.funcs.items() if q.startswith(ncls + '.')
                and any(norm(n) == 'self.parameters' and isinstance(n.ctx, ast.Load)
                        for n in walk_no_nested(f))]
